@@ -63,6 +63,8 @@ else:
 
 # ---------------------------------------------------------------- 2. differential digests
 ncorpus = 3000 if tier == "quick" else 60000
+# strings that are not cipher-suite names, looked up by name in every configuration (2 routes each)
+name_volume = (1 << 26) if tier == "quick" else (1 << 28)
 digests = {}
 if harness_ok and rc_default == 0:
     corpus = os.path.join(OUT, "corpus.bin")
@@ -82,11 +84,13 @@ if harness_ok and rc_default == 0:
                 # the digest program is coupled to the public API: a tree on which it does not build is inconclusive
                 inconclusive.append("digest program does not build for configuration %s: %s" % (name, se[-400:]))
                 continue
-            rc, so, se = run([os.path.join(tdir, "release/c18digest"), corpus])
+            rc, so, se = run([os.path.join(tdir, "release/c18digest"), corpus, str(name_volume)])
             if rc != 0:
                 violations.append(("c18:digest:%s:program-died" % name, {"exit": rc, "stderr": se[-800:]}))
                 continue
             digests[name] = so.splitlines()
+            observed["digest.name-lookups-of-non-names"] = sum(int(l.split("lookups=")[1].split()[0]) for l in digests[name] if l.startswith("N volume-shard"))
+            observed["digest.%s.spurious-name-hits" % name] = sum(int(l.split("hits=")[1].split()[0]) for l in digests[name] if l.startswith("N volume-shard"))
         base = digests.get("default")
         if base:
             observed["digest.lines"] = len(base)
@@ -118,34 +122,35 @@ if digests.get("default"):
         corpus = os.path.join(OUT, "corpus.bin")
         clock_reads = {}
         for name in list(digests.keys()):
+            base_lines = [l for l in digests[name] if not l.startswith("N volume-shard") and not l.startswith("#")]
             exe = os.path.join(OUT, "digest-" + name, "release/c18digest")
             wlog = os.path.join(OUT, "warp-%s.log" % name)
             if os.path.exists(wlog):
                 os.remove(wlog)
             envw = dict(ENV, LD_PRELOAD=warp, VERIF_WARP_LOG=wlog)
-            rc, so, se = run([exe, corpus], env=envw)
+            rc, so, se = run([exe, corpus, "0"], env=envw)
             try:
                 clock_reads[name] = int(open(wlog).read().strip())
             except Exception:
                 clock_reads[name] = None
             if rc != 0:
                 violations.append(("c18:digest:%s:program-died-under-time-warp" % name, {"exit": rc, "stderr": se[-800:]}))
-            elif so.splitlines() != digests[name]:
-                lines = so.splitlines()
-                first = next((i for i, (a, b) in enumerate(zip(digests[name], lines)) if a != b), min(len(digests[name]), len(lines)))
-                violations.append(("c18:digest:%s:results-depend-on-the-clock" % name, {"first_differing_line": first, "real_clock": digests[name][first] if first < len(digests[name]) else None,
+            elif [l for l in so.splitlines() if not l.startswith("#")] != base_lines:
+                lines = [l for l in so.splitlines() if not l.startswith("#")]
+                first = next((i for i, (a, b) in enumerate(zip(base_lines, lines)) if a != b), min(len(base_lines), len(lines)))
+                violations.append(("c18:digest:%s:results-depend-on-the-clock" % name, {"first_differing_line": first, "real_clock": base_lines[first] if first < len(base_lines) else None,
                                    "warped_clock": lines[first] if first < len(lines) else None, "clock_reads": clock_reads[name],
                                    "what": "same program, same corpus; every clock read advanced one hour (LD_PRELOAD probes/timewarp/warp.c); the no_std build has no clock, so configurations disagree"}))
             else:
                 observed["ambient.%s.timewarp.equal" % name] = len(so.splitlines())
             envs = {"PATH": "/nonexistent", "TZ": "Pacific/Kiritimati", "LANG": "tr_TR.UTF-8", "LC_ALL": "tr_TR.UTF-8", "RUST_LOG": "trace", "RUST_BACKTRACE": "full",
                     "TLS_PARSER_DEBUG": "1", "SSLKEYLOGFILE": "/dev/null", "HOME": "/nonexistent", "TMPDIR": "/nonexistent", "COLUMNS": "1"}
-            rc, so, se = run([exe, corpus], env=envs, cwd="/")
+            rc, so, se = run([exe, corpus, "0"], env=envs, cwd="/")
             if rc != 0:
                 violations.append(("c18:digest:%s:program-died-under-scrambled-environment" % name, {"exit": rc, "stderr": se[-800:]}))
-            elif so.splitlines() != digests[name]:
-                lines = so.splitlines()
-                first = next((i for i, (a, b) in enumerate(zip(digests[name], lines)) if a != b), min(len(digests[name]), len(lines)))
+            elif [l for l in so.splitlines() if not l.startswith("#")] != base_lines:
+                lines = [l for l in so.splitlines() if not l.startswith("#")]
+                first = next((i for i, (a, b) in enumerate(zip(base_lines, lines)) if a != b), min(len(base_lines), len(lines)))
                 violations.append(("c18:digest:%s:results-depend-on-the-environment" % name, {"first_differing_line": first, "environment": envs}))
             else:
                 observed["ambient.%s.environment.equal" % name] = len(so.splitlines())
